@@ -122,6 +122,8 @@ func (p *PKI) ClientVerify(pol ClientPolicy, authorized ...keys.DHPublicKey) *tr
 //	200..299  10.1.0.(i-200) : 4000+(i-200)                 — differs from i-200 in the IP only
 //	300..399  2001:db8::(i-300) : 4000+(i-300)              — IPv6
 //	400..499  2001:db8:1::(i-400) : 4000+(i-400)            — IPv6, differs from i-100 in the IP only
+//	500..599  fe80::(i-500)%eth0 : 4000+(i-500)             — link-local IPv6 with a zone
+//	600..699  fe80::(i-600)%eth1 : 4000+(i-600)             — differs from i-100 in the zone only
 func Addr(i int) *net.UDPAddr {
 	switch {
 	case i < 100:
@@ -134,10 +136,20 @@ func Addr(i int) *net.UDPAddr {
 		ip := net.ParseIP("2001:db8::")
 		ip[15] = byte(i - 300)
 		return &net.UDPAddr{IP: ip, Port: 4000 + (i - 300)}
-	default:
+	case i < 500:
 		ip := net.ParseIP("2001:db8:1::")
 		ip[15] = byte(i - 400)
 		return &net.UDPAddr{IP: ip, Port: 4000 + (i - 400)}
+	case i < 600:
+		// link-local with a zone
+		ip := net.ParseIP("fe80::")
+		ip[15] = byte(i - 500)
+		return &net.UDPAddr{IP: ip, Port: 4000 + (i - 500), Zone: "eth0"}
+	default:
+		// the same link-local address on another interface: differs from i-100 in the zone only
+		ip := net.ParseIP("fe80::")
+		ip[15] = byte(i - 600)
+		return &net.UDPAddr{IP: ip, Port: 4000 + (i - 600), Zone: "eth1"}
 	}
 }
 
